@@ -15,7 +15,7 @@ import fixtures
 import render
 from common import Check, b64, harness, seed, tlc, tlc_ok
 
-CONST_NONE = {"History": "FALSE", "MaxLen": "0", "EmitMode": '"none"', "SampleMod": "1", "SamplePick": "0"}
+CONST_NONE = {"History": "FALSE", "MaxLen": "0", "EmitMode": '"none"', "SampleMod": "1", "SamplePick": "0", "ValidOnly": "FALSE"}
 
 
 def flatten(forest):
@@ -57,6 +57,26 @@ def judge(doc, data, spans, want, o):
                 return "directive item %d (%s): parent item %s, expected %s" % (i, it["k"], rpi, want["par"][i - 1])
         if len(real) != len(begin2item):
             return "forest has %d nodes, document has %d directives" % (len(real), len(begin2item))
+        # the forest is rebuilt after MACRO/PASTE expansion (core/compile_core_paste.go): every directive
+        # outside a MACRO must get the same parent again
+        if "paste" in o["stages"]:
+            after = flatten(o.get("pastes") or [])
+            inmacro = set()
+            for i, it in enumerate(doc, 1):
+                if it["t"] == "kw":
+                    p = want["par"][i - 1]
+                    if it["k"] == "MACRO" or p in inmacro:
+                        inmacro.add(i)
+            for i, it in enumerate(doc, 1):
+                if it["t"] != "kw" or i in inmacro:
+                    continue
+                b = spans[i][0]
+                if b not in after:
+                    return "after expansion: directive item %d (%s) is missing from the forest" % (i, it["k"])
+                rp = after[b]
+                rpi = 0 if rp is None else begin2item.get(rp, -2)
+                if rpi != want["par"][i - 1]:
+                    return "after expansion: directive item %d (%s): parent item %s, expected %s" % (i, it["k"], rpi, want["par"][i - 1])
         return None
     if scanned:
         return "predicted %s at item %s, but the scan stage accepted the document" % (v, want["at"])
@@ -88,7 +108,7 @@ def run_docs(chk, recs, tag):
         doc = r["doc"]
         data, spans = render.render_tree_doc(doc)
         cid = "%s%d" % (tag, n)
-        cases.append({"id": cid, "files": {"main.jst": b64(data)}, "root": "main.jst", "want": ["forest"]})
+        cases.append({"id": cid, "files": {"main.jst": b64(data)}, "root": "main.jst", "want": ["forest", "pastes"]})
         meta[cid] = (doc, data, spans, r)
     obs = harness("run", cases)
     agree_impl = 0
@@ -142,6 +162,16 @@ def main(tier, only_replay=None):
     if r.mbt:
         chk.sample({"random_walk_doc": [(i["t"], i["k"]) for i in r.mbt[-1]["doc"]], "predicted": r.mbt[-1]["out"]["v"]})
     a3, n3 = run_docs(chk, r.mbt, "s")
+    # 3b. random walks that stay acceptable: long well-nested documents whose forest is rebuilt by the
+    #     MACRO/PASTE expansion stage (same resolution code, second use)
+    c = dict(CONST_NONE, History="TRUE", MaxLen="30", EmitMode='"docs"', ValidOnly="TRUE")
+    r = tlc_ok(tlc("JSightTree", "Tree_docs.cfg", consts=c, simulate=nsim, depth=40, tlc_seed=sd + 1, workers=8 if thorough else 4,
+                   timeout=3000), "JSightTree valid walks")
+    chk.add_tlc(r)
+    if r.mbt:
+        chk.sample({"valid_walk_doc": [(i["t"], i["k"]) for i in r.mbt[-1]["doc"]], "predicted": r.mbt[-1]["out"]["v"]})
+    a4, n4 = run_docs(chk, r.mbt, "v")
+    a3, n3 = a3 + a4, n3 + n4
     chk.extra["impl_conformance"] = {"agree": a1 + a2 + a3, "checked": n1 + n2 + n3}
     # 4. V: fixtures recorded from the real code, validated by TLC
     fixtures.validate_tree_traces(chk, limit=None if thorough else 400)
